@@ -123,6 +123,18 @@ def oracle_grad(case):
     want = SGDOptimizer if s["solver"] == "sgd" else AdamOptimizer
     if type(getattr(est, "optimiser_", None)) is not want:
         raise Violation(f"{label}: optimiser_ is {type(getattr(est, 'optimiser_', None)).__name__}, solver is {s['solver']}")
+    # what predict_proba / predict return belongs to the caller: writing into it (re-ordering columns, thresholding in place)
+    # must not change the model
+    P_keep, pred_keep = P.copy(), np.array(pred, copy=True)
+    for arr in (P, pred):
+        if isinstance(arr, np.ndarray) and arr.flags.writeable:
+            arr[...] = arr[::-1].copy() if len(arr) > 1 else 0
+            arr[...] = 0
+    P_after = np.asarray(call(label, "predict_proba (second call)", est.predict_proba, X))
+    pred_after = np.asarray(call(label, "predict (second call)", est.predict, X))
+    if not np.array_equal(P_after, P_keep) or not np.array_equal(pred_after, pred_keep) or not np.array_equal(est.labels_, pred_keep):
+        raise Violation(f"{label}: after the caller wrote into the arrays returned by predict_proba / predict, the model predicts "
+                        f"differently (the returned arrays are shared with the model's state)")
     nondefault = sum(1 for k in s if k not in ("cls", "n", "d", "x", "random_state", "max_iter", "learning_rate"))
     return {"nontrivial": bool(n >= 2 and nondefault >= 2),
             "classes": [s["cls"], "dtype:" + case["dtype"], f"K={K}"], "note": {"labels": labels.tolist()[:12], "score": sc}}
